@@ -96,7 +96,7 @@ def ServiceValidateMaxRequestTimeout (i : Int) : Option (Bool) := do
   if (!ok) then do
       some false
   else do
-      if decide (v ≤ (0 : Int)) then do
+      if (decide (v ≤ (0 : Int))) then do
           some false
       else do
           some true
@@ -107,7 +107,7 @@ def ServiceValidateMinDepositMultiple (i : Int) : Option (Bool) := do
   if (!ok) then do
       some false
   else do
-      if decide (v ≤ (0 : Int)) then do
+      if (decide (v ≤ (0 : Int))) then do
           some false
       else do
           some true
@@ -151,7 +151,7 @@ def ServiceValidateComplaintRetrospect (i : Int) : Option (Bool) := do
   if (!ok) then do
       some false
   else do
-      if decide (v ≤ (0 : Int)) then do
+      if (decide (v ≤ (0 : Int))) then do
           some false
       else do
           some true
@@ -162,7 +162,7 @@ def ServiceValidateArbitrationTimeLimit (i : Int) : Option (Bool) := do
   if (!ok) then do
       some false
   else do
-      if decide (v ≤ (0 : Int)) then do
+      if (decide (v ≤ (0 : Int))) then do
           some false
       else do
           some true
